@@ -16,6 +16,10 @@ ANCHORS = c07.ANCHORS + [
     ("src/easynetwork/protocol.py", "StreamProtocol.build_packet_from_chunks"),
     ("src/easynetwork/protocol.py", "BufferedStreamProtocol.build_packet_from_buffer"),
     ("src/easynetwork/lowlevel/_stream.py", "BufferedStreamDataConsumer.__save_remainder_in_buffer"),
+    ("src/easynetwork/serializers/json.py", "_JSONParser.raw_parse"),
+    ("src/easynetwork/serializers/json.py", "_JSONParser._split_partial_document"),
+    ("src/easynetwork/serializers/json.py", "_JSONParser._escaped"),
+    ("src/easynetwork/serializers/json.py", "JSONSerializer.incremental_deserialize"),
 ]
 RULE = ("streams of 1-4 frames drawn from {valid, undecodable (a byte >= 128), at-the-limit (payload within +-2 of "
         "limit-1-seplen and of limit), oversized} in every order, optionally followed by an unterminated tail; limits "
